@@ -128,6 +128,7 @@ CHECKS: dict[str, dict] = {
     "C20": {
         "batches": lambda tier: [
             {"engine": "e4_lifecycle", "label": "lifecycle", "profile": {"mode": "lifecycle"}, "n_runs": 320 if tier == "quick" else 8000, "budget_s": 200 if tier == "quick" else 1800},
+            {"engine": "e4_lifecycle", "label": "wrappers", "profile": {"mode": "wrapper"}, "n_runs": 480 if tier == "quick" else 20000, "budget_s": 60 if tier == "quick" else 600},
             {"engine": "e4_lifecycle", "label": "ill_typed_under_missing_filters", "profile": {"mode": "lifecycle", "fixed_cfgs": ILL_TYPED_CFGS}, "n_runs": 16, "budget_s": 120},
         ],
         "rule": (
@@ -135,7 +136,9 @@ CHECKS: dict[str, dict] = {
             "depth, convs, norm, all five bias modes, activation, pre-activation, d in {2,3}, torus flag, extents compatible with pooling) x a life-cycle history of 3-8 events "
             "(tree_map identity, inference_mode on/off, optimiser update, save->load into a twin through the fault-injecting SimDisk, filter_jit call, transported input); "
             "after every event the model is called directly and types, channels, type order, spatial shape, D and flags are compared with the requested signature restricted to "
-            "the types reachable through the bank (computed independently from the bank's key set). distinct = hash of the event-kind sequence incl. disk-fault kinds; "
+            "the types reachable through the bank (computed independently from the bank's key set). Batch wrappers: ModelWrapper / GroupAverage / Climate1D around an identity network "
+            "(integer data, unsorted signatures, extents that coincide with the channel count, both dimensions in one process): the output must equal the input exactly by type "
+            "after every event. distinct = hash of the event-kind sequence incl. disk-fault kinds; "
             "non-trivial = at least one life-cycle event was executed"
         ),
         "components": REAL_STUB,
